@@ -20,8 +20,6 @@ Definition cfg_ok (c : cfg) : Prop :=
   NoDup (heads (specials c)) /\
   Forall ascii_byte (heads (specials c)) /\
   Forall (tail_clean (heads (specials c))) (specials c) /\
-  (* with ignore_crlf the CR/LF bytes never reach the scanner: they cannot be part of a delimiter *)
-  (c_ignore_crlf c = true -> Forall (fun x => forall b, In b x -> is_crlf b = false) (specials c)) /\
   (* with LF as segment delimiter a CR in front of it is dropped: the release character cannot end with CR *)
   (c_seg c = [LF] -> ~ ends_with_cr (optb (c_rel c))).
 
@@ -621,4 +619,128 @@ Proof.
   rewrite Hvals. cbn [bind]. rewrite vals_to_elems_enc by exact Hr. cbn [bind].
   rewrite IH by exact Hs. reflexivity.
 Qed.
+
+Lemma has_suffix_snoc u b : has_suffix (u ++ [b]) [b] = true.
+Proof. unfold has_suffix. rewrite rev_unit. simpl. rewrite byte_eqb_refl. destruct (rev u); reflexivity. Qed.
+
+Lemma Pe_elem : Pe elem.
+Proof.
+  destruct delims_distinct as (Hse & Hr & Hc). split; [apply elem_in|]. split.
+  - intro Heq. destruct (list_eq_dec Byte.byte_eq_dec comp []) as [Hce|Hce].
+    + destruct Hcfg as (_ & Hs & _). fold elem in Hs. congruence.
+    + destruct (Hc Hce) as (_ & Hn & _). congruence.
+  - intro Heq. destruct (list_eq_dec Byte.byte_eq_dec rep []) as [Hre|Hre].
+    + destruct Hcfg as (_ & Hs & _). fold elem in Hs. congruence.
+    + destruct (Hr Hre) as (_ & Hn). congruence.
+Qed.
+
+Lemma read_token_enc s cr : s <> [] -> Forall elem_ok s -> seg_name s <> [] ->
+  (cr = true -> seg = [LF]) -> (seg = [LF] -> has_suffix (enc_seg c s) [CR] = false) ->
+  read_token c (enc_seg c s ++ cr_if cr ++ seg) = Ok (exp_seg c s).
+Proof.
+  intros Hne Hel Hname Hcr Hnocr. unfold read_token. fold seg.
+  assert (length (enc_seg c s ++ cr_if cr ++ seg) <? length seg = false) as ->.
+  { apply Nat.ltb_ge. rewrite !app_length. lia. }
+  rewrite slice_ok by (rewrite ?app_length; lia). cbn [bind skipn]. rewrite Nat.sub_0_r.
+  replace (length (enc_seg c s ++ cr_if cr ++ seg) - length seg) with (length (enc_seg c s ++ cr_if cr))
+    by (rewrite !app_length; lia).
+  rewrite app_assoc, firstn_app, Nat.sub_diag, firstn_all. simpl firstn. rewrite app_nil_r.
+  assert (Hnsd : (if bytes_eqb seg [LF] && has_suffix (enc_seg c s ++ cr_if cr) [CR]
+                  then slice (enc_seg c s ++ cr_if cr) 0 (length (enc_seg c s ++ cr_if cr) - 1)
+                  else Ok (enc_seg c s ++ cr_if cr)) = Ok (enc_seg c s)).
+  { destruct (bytes_eqb seg [LF]) eqn:Eseg; cbn [andb].
+    - apply bytes_eqb_eq in Eseg. destruct cr; cbn [cr_if].
+      + rewrite has_suffix_snoc. rewrite slice_ok by (rewrite ?app_length; simpl; lia). cbn [skipn].
+        rewrite Nat.sub_0_r, app_length. simpl length. rewrite Nat.add_sub, firstn_app, Nat.sub_diag, firstn_all.
+        simpl. rewrite app_nil_r. reflexivity.
+      + rewrite app_nil_r, (Hnocr Eseg). reflexivity.
+    - destruct cr; [|cbn [cr_if]; rewrite app_nil_r; reflexivity].
+      rewrite (Hcr eq_refl) in Eseg. simpl in Eseg. discriminate. }
+  match goal with |- bind ?X _ = _ => replace X with (Ok (enc_seg c s)) by (symmetry; exact Hnsd) end.
+  cbn [bind]. fold elem.
+  unfold enc_seg at 1. fold elem esc.
+  rewrite (split_sealed Pe Pe_sub elem (map (enc_elem c) s)).
+  - cbn [bind]. rewrite elems_to_raw_enc by exact Hel. cbn [bind].
+    destruct s as [|e s]; [congruence|]. inversion Hel as [|? ? He _]; subst.
+    destruct He as (Hene & _ & Hr). destruct e as [|r e]; [congruence|].
+    inversion Hr as [|? ? Hr1 _]; subst. destruct Hr1 as (Hrne & _). destruct r as [|d r]; [congruence|].
+    cbn [seg_name] in Hname. unfold exp_seg. cbn [seg_name exp_elems exp_elem flat_map exp_rep map comps_of app].
+    change (escape (heads (specials c)) (optb (c_rel c))) with E.
+    destruct (E d) eqn:Ed; [apply E_nil_inv in Ed; congruence|]. reflexivity.
+  - apply Pe_elem.
+  - apply map_nonempty. exact Hne.
+  - apply Forall_forall. intros p Hp. apply in_map_iff in Hp as (e & <- & Hin).
+    apply sealed_elem. rewrite Forall_forall in Hel. auto.
+Qed.
+
+(* ---- the scanner and the CR/LF-only tokens ---------------------------------------------------------------- *)
+Lemma scan_tokens_sealed : forall ps fuel, Forall (sealed Ps) ps ->
+  length (flat_map (fun p => p ++ seg) ps) < fuel ->
+  scan_tokens fuel (flat_map (fun p => p ++ seg) ps) seg esc = Ok (map (fun p => p ++ seg) ps).
+Proof.
+  induction ps as [|p ps IH]; intros fuel Hall Hf.
+  - destruct fuel; [simpl in Hf; lia|]. reflexivity.
+  - inversion Hall as [|? ? Hp Hps]; subst. destruct fuel as [|k]; [lia|].
+    cbn [flat_map map] in *. rewrite <- app_assoc in *.
+    assert (0 < length seg).
+    { destruct Hcfg as (Hs & _). fold seg in Hs. destruct seg; [congruence|simpl; lia]. }
+    cbn [scan_tokens]. rewrite !app_length in Hf.
+    destruct (p ++ seg ++ flat_map (fun p0 => p0 ++ seg) ps) as [|b0 t0] eqn:Ed.
+    { apply (f_equal (@length byte)) in Ed. rewrite !app_length in Ed. simpl in Ed. lia. }
+    rewrite <- Ed. rewrite (index_sealed Ps Ps_sub seg p _ eq_refl Hp). cbn [bind].
+    rewrite slice_ok by (rewrite ?app_length; lia). cbn [bind].
+    rewrite slice_from_ok by (rewrite !app_length; lia). cbn [bind skipn]. rewrite Nat.sub_0_r.
+    replace (length p + length seg) with (length (p ++ seg)) by apply app_length.
+    rewrite app_assoc, firstn_app, Nat.sub_diag, firstn_all. simpl firstn. rewrite app_nil_r.
+    rewrite skipn_app_exact. rewrite IH by (try exact Hps; lia). reflexivity.
+Qed.
+
+Lemma sealed_nil : sealed Ps [].
+Proof.
+  split.
+  - intros x u v Hx Heq. exfalso. unfold Ps in Hx. subst x.
+    destruct Hcfg as (Hs & _). fold seg in Hs. destruct u; destruct seg; simpl in Heq; congruence.
+  - intros _. reflexivity.
+Qed.
+
+Lemma not_suffix_cr (e u u' : bytes) : e <> [] -> ~ ends_with_cr e -> u ++ [CR] <> u' ++ e.
+Proof.
+  intros He Hn Heq. apply Hn. destruct (@exists_last _ e He) as (e' & z & ->).
+  rewrite app_assoc in Heq. apply app_inj_tail in Heq as [_ <-]. exists e'. reflexivity.
+Qed.
+
+Lemma esc_not_suffix_cr u : seg = [LF] -> esc <> [] -> Nat.odd (trailing esc (u ++ [CR])) = false.
+Proof.
+  intros Hs He. rewrite trailing_none; [reflexivity|]. intros u'.
+  destruct Hcfg as (_ & _ & _ & _ & _ & Hcr). apply not_suffix_cr; [exact He|apply Hcr; exact Hs].
+Qed.
+
+Lemma sealed_snoc_cr p : seg = [LF] -> sealed Ps p -> sealed Ps (p ++ [CR]).
+Proof.
+  intros Hs [S1 S2]. split.
+  - intros x u v Hx Heq. unfold Ps in Hx. subst x.
+    destruct v as [|v0 v] using rev_ind.
+    + exfalso. rewrite app_nil_r, Hs in Heq. apply app_inj_tail in Heq as [_ Hc]. discriminate.
+    + clear IHv. rewrite !app_assoc in Heq. apply app_inj_tail in Heq as [Hp _].
+      apply (S1 seg u v eq_refl). rewrite Hp, <- app_assoc. reflexivity.
+  - apply esc_not_suffix_cr. exact Hs.
+Qed.
+
+Lemma sealed_cr_if b p : (b = true -> seg = [LF]) -> sealed Ps p -> sealed Ps (p ++ cr_if b).
+Proof.
+  intros Hb Hp. destruct b; cbn [cr_if]; [apply sealed_snoc_cr; auto|rewrite app_nil_r; exact Hp].
+Qed.
+
+Lemma only_crlf_fuel_all : forall t k, forallb is_crlf t = true -> only_crlf_fuel k t = true.
+Proof.
+  induction t as [|b t IH]; intros k Hall; [destruct k; reflexivity|].
+  destruct k as [|k]; [reflexivity|]. cbn [forallb] in Hall. apply andb_prop in Hall as [Hb Ht].
+  cbn [only_crlf_fuel]. unfold is_crlf in Hb. apply orb_prop in Hb.
+  assert (decode_rune (b :: t) = (b2n b, 1) /\ (N.eqb (b2n b) 10 || N.eqb (b2n b) 13 = true)) as [-> ->].
+  { destruct Hb as [Hb|Hb]; apply byte_eqb_eq in Hb; subst b; split; reflexivity. }
+  cbn [andb skipn]. apply IH. exact Ht.
+Qed.
+
+Lemma only_crlf_all t : forallb is_crlf t = true -> only_crlf t = true.
+Proof. apply only_crlf_fuel_all. Qed.
 End RT.
